@@ -13,7 +13,7 @@ Definition arith (o: binop) (a b: Z) : option Z :=
   | BPlus => Some (a + b)%Z | BMinus => Some (a - b)%Z | BMul => Some (a * b)%Z
   | BDiv => if Z.eqb b 0 then None else Some (Z.quot a b)
   | BMod => if Z.eqb b 0 then None else Some (Z.rem a b)
-  | BPow => if Z.ltb b 0 then None else Some (Z.pow a b)
+  | BPow => if Z.ltb b 0 then (if Z.eqb a 0 then None else Some 0%Z) else Some (Z.pow a b)
   | BXor => Some (Z.lxor a b) | BOr => Some (Z.lor a b) | BAnd => Some (Z.land a b)
   end.
 
